@@ -11,6 +11,31 @@ CHECKS = {
             "Held on the generated executions only: every planted sensitive literal (unique token per leaf) is searched in every emitted line in raw, escaped and decoded form; booleans by position. Reach comes from grammar coverage (every verb, zone, carrier, operator family, literal class) and flag-set coverage, not from enumeration.",
             "Trusts the driver's own JSON reader and the tagging of value positions in DESIGN Appendix A; says nothing about grammar positions the generator does not produce.",
             "DESIGN §4 C01"),
+    "C02": ("exploration",
+            "runtime monitor: two-run non-interference (relational) oracle — byte comparison of outputs for input pairs that differ only in sensitive values",
+            "Held on the generated pairs: each grammar line is re-run with all sensitive leaves re-drawn inside their lexical class (fresh, all-equal, metacharacter-heavy, 20 000-character, 1-character) under placeholder-mode flag sets incl. -f; any differing output byte is a violation and the aligner names the leaf.",
+            "Class membership of re-drawn values is by construction (conservative e-mail sub-grammar, no '@' / leading '$' in ordinary strings); numbers/booleans/remote only re-drawn under -n/-b/-i.",
+            "DESIGN §4 C02"),
+    "C03": ("exploration",
+            "runtime monitor: independent strict JSON reader + lock-step tree aligner over grammar lines, vocabulary soup and the full {operator key}×{value kind}×{zone} product",
+            "Held on the observed executions: every output must be exactly one strict JSON object on one line whose tree has the input's keys (in order), array lengths and leaf JSON types. The small product over the complete operator vocabulary (driver list ∪ keys dumped from the tool's tables) is enumerated in full in the thorough tier.",
+            "Trusts the driver's own reader; inputs never have duplicate sibling keys; --redactFieldNames excluded by the statement.",
+            "DESIGN §4 C03"),
+    "C04": ("exploration",
+            "runtime monitor: tree differential (decoded strings, RAW number text, key order) with a zone mask written from the property statement",
+            "Held on the observed executions: all leaves tagged KEEP by the generator (everything outside the query-bearing command fields; $limit/$skip at any depth; top-level $sample.size, search index/numCandidates/limit; $binary.subType) plus whole other-component soup lines are compared with the output leaf by leaf, numbers by their literal text.",
+            "The zone mask comes from the property's list of query-bearing fields, never from the tool; lone surrogates / invalid UTF-8 are not generated.",
+            "DESIGN §4 C04"),
+    "C05": ("exploration",
+            "runtime monitor: per-leaf class validators (RFC 3339 parser, strict base64, 24-hex, e-mail grammar, exact replacement text) over aligned sensitive leaves",
+            "Held on the observed executions: every aligned sensitive leaf of every class in every slot family is validated against the placeholder rules of the statement under 9 replacement strings.",
+            "Validators are the driver's own; wrappers not listed in the statement are ordinary strings.",
+            "DESIGN §4 C05"),
+    "C19": ("exploration",
+            "runtime monitor: two-pass fixed-point check — the first pass's output file is fed back through the CLI and compared as bytes",
+            "Held on the generated files under 2^3 of -n -b -i × 5 replacement texts.",
+            "Weak against canonicalising changes by construction (C04 covers those).",
+            "DESIGN §4 C19"),
 }
 
 NOT_YET = {
